@@ -207,6 +207,7 @@ from .value import (
     kv_pairs_from_mapping,
     make_coro_type,
     replace_known_sequence_value,
+    stable_set_order,
     set_self,
     stringify_object,
     unannotate_value,
@@ -3687,7 +3688,11 @@ class NameCheckVisitor(node_visitor.ReplacingNodeVisitor):
             return Constraint(varname, ConstraintType.predicate, positive, predicate)
         elif isinstance(op, (ast.In, ast.NotIn)) and is_right:
             try:
-                predicate_vals = list(other_val)
+                if isinstance(other_val, (set, frozenset)):
+                    # the narrowed union lists the elements; do not depend on hash order
+                    other_val = predicate_vals = stable_set_order(other_val)
+                else:
+                    predicate_vals = list(other_val)
                 predicate_types = {type(val) for val in predicate_vals}
                 if len(predicate_types) == 1:
                     pattern_type = next(iter(predicate_types))
